@@ -24,6 +24,8 @@ QKeys     == {"k1", "k2"}
 QVals     == {"v1", "ve", "e"}             \* plain, percent-escaped, empty
 StdNames  == {"Host", "Accept", "CT"}      \* standard headers (CT = Content-Type)
 CustNames == {"XA", "XB"}                  \* custom headers
+\* every standard request header of the framework's table (minus the framing/connection ones), by registered name
+AllStd    == {"Accept", "Accept-Encoding", "Accept-Language", "Access-Control-Request-Headers", "Access-Control-Request-Method", "Authorization", "Cache-Control", "Content-Disposition", "Content-Encoding", "Content-Language", "Content-Location", "Date", "Forwarded", "From", "Host", "If-Match", "If-Modified-Since", "If-None-Match", "If-Range", "If-Unmodified-Since", "Link", "Max-Forwards", "Origin", "Proxy-Authorization", "Range", "Referer", "Sec-Fetch-Dest", "Sec-Fetch-Mode", "Sec-Fetch-Site", "Sec-Fetch-User", "Sec-WebSocket-Extensions", "Sec-WebSocket-Key", "Sec-WebSocket-Protocol", "Sec-WebSocket-Version", "TE", "Trailer", "User-Agent", "Upgrade-Insecure-Requests", "Via"}
 Cases     == {"canon", "lower", "upper", "mixed"}
 HVals     == {"v1", "v2", "vl", "vs"}      \* short, other, long (200 bytes), with inner spaces and ; =
 BodySizes == {"small", "fill", "over", "big"}   \* 5 bytes; exactly the rest of the 1 KiB buffer; rest + 300; 3000
@@ -33,7 +35,7 @@ Faults    == {"none",
               "version-1.0", "version-2", "version-garbage",
               "no-sp-after-method", "no-sp-after-target", "no-version",
               "header-no-colon", "bare-lf",
-              "cl-letters", "cl-digits-then-letter", "cl-negative", "cl-30-digits", "cl-empty",
+              "cl-letters", "cl-digits-then-letter", "cl-negative", "cl-30-digits", "cl-empty", "cl-plus-sign", "cl-hex",
               "nul-in-target", "nul-in-header-value", "nonutf8-in-header-value", "nonutf8-in-target",
               "unknown-method", "lowercase-method", "target-no-slash", "target-asterisk",
               "target-too-long", "header-line-too-long"}
@@ -46,7 +48,7 @@ Empty  == [phase |-> "method", method |-> "GET", segs |-> <<>>, trailing |-> FAL
 
 \* --------------------------------------------------------------------------------------------- the machine
 CONSTANTS MaxSegs, MaxPairs, MaxHeaders,
-          FAMILY     \* which dimension is explored exhaustively: "headers" | "target" | "body" | "faults" | "all" (for -simulate)
+          FAMILY     \* which dimension is explored exhaustively: "headers" | "names" | "target" | "body" | "faults" | "all" (for -simulate)
 VARIABLE r
 \* header lines: every name in several cases, repeated names (same and different case), long and spaced values
 HLines == {<<"Host", "canon", "v1">>, <<"Host", "lower", "v2">>, <<"Accept", "mixed", "v1">>, <<"Accept", "upper", "v2">>,
@@ -61,8 +63,10 @@ Trailing    == r.phase = "target" /\ F({"target"}) /\ r.segs # <<>> /\ ~r.traili
 QMark       == r.phase = "target" /\ F({"target", "faults"}) /\ r' = [r EXCEPT !.phase = "query", !.hasq = TRUE]
 Pair(k, v)  == r.phase = "query" /\ Len(r.query) < MaxPairs /\ (F({"target"}) \/ (k = "k1" /\ v = "v1" /\ r.query = <<>>)) /\ r' = [r EXCEPT !.query = Append(@, <<k, v>>)]
 Version     == r.phase \in {"target", "query"} /\ r' = [r EXCEPT !.phase = "headers"]
-HeaderLine(n, c, v) == /\ r.phase = "headers" /\ Len(r.headers) < MaxHeaders /\ <<n, c, v>> \in HLines
-                       /\ (F({"headers"}) \/ (Len(r.headers) < 2 /\ <<n, c, v>> \in {<<"Host", "canon", "v1">>, <<"XB", "mixed", "vl">>}))
+HeaderLine(n, c, v) == /\ r.phase = "headers" /\ Len(r.headers) < MaxHeaders
+                       /\ IF FAMILY = "names" THEN (r.headers = <<>> /\ n \in AllStd /\ v = "v1") \/ (Len(r.headers) = 1 /\ <<n, c, v>> = <<"XA", "canon", "v2">>)
+                          ELSE /\ <<n, c, v>> \in HLines
+                               /\ (F({"headers"}) \/ (Len(r.headers) < 2 /\ <<n, c, v>> \in {<<"Host", "canon", "v1">>, <<"XB", "mixed", "vl">>}))
                        /\ r' = [r EXCEPT !.headers = Append(@, [n |-> n, c |-> c, v |-> v])]
 \* the Content-Length line and the payload it announces (only POST/PUT/PATCH/DELETE carry one here)
 Body(sz, f, z, c) == /\ r.phase = "headers" /\ r.method \in {"POST", "PUT", "PATCH", "DELETE"}
@@ -71,7 +75,7 @@ Body(sz, f, z, c) == /\ r.phase = "headers" /\ r.method \in {"POST", "PUT", "PAT
 EndOfHead   == r.phase = "headers" /\ r' = [r EXCEPT !.phase = "done"]
 \* exactly one fault, applied by the concretiser at the place its name says; some need a body / a header to bite
 Fault(f)    == /\ r.phase = "done" /\ r.fault = "none" /\ f # "none" /\ F({"faults"})
-               /\ (f \in {"trunc-body", "cl-letters", "cl-digits-then-letter", "cl-negative", "cl-30-digits", "cl-empty"} => r.body.size # "none")
+               /\ (f \in {"trunc-body", "cl-letters", "cl-digits-then-letter", "cl-negative", "cl-30-digits", "cl-empty", "cl-plus-sign", "cl-hex"} => r.body.size # "none")
                /\ (f \in {"trunc-header-name", "trunc-header-value", "header-no-colon", "nul-in-header-value",
                           "nonutf8-in-header-value", "header-line-too-long"} => r.headers # <<>>)
                /\ r' = [r EXCEPT !.fault = f, !.phase = "end"]
@@ -81,7 +85,7 @@ Next == \/ \E m \in Methods : Method(m)
         \/ \E s \in SegToks : Seg(s)
         \/ Trailing \/ QMark \/ Version \/ EndOfHead \/ Finish
         \/ \E k \in QKeys, v \in QVals : Pair(k, v)
-        \/ \E n \in StdNames \cup CustNames, c \in Cases, v \in HVals : HeaderLine(n, c, v)
+        \/ \E n \in StdNames \cup CustNames \cup AllStd, c \in Cases, v \in HVals : HeaderLine(n, c, v)
         \/ \E sz \in BodySizes, f \in {"N", "Z"}, z \in BOOLEAN, c \in {"canon", "lower", "mixed"} : Body(sz, f, z, c)
         \/ \E f \in Faults : Fault(f)
 Spec == Init /\ [][Next]_r
